@@ -133,6 +133,10 @@ fn exec_xyo(rec: &Value) -> Value {
 fn exec_plane(rec: &Value) -> Value {
     let s = p2(gi(rec, "sc"));
     let kind = gs(rec, "kind");
+    // `off`: every point of the record is translated by that lattice vector (planes through small triangles far from the origin);
+    // the offset of the plane and every reported point are translated back, distances and directions are not affected
+    let off = match rec.get("off") { Some(_) => v3(&gvi(rec, "off"), s), None => v3(&[0, 0, 0], 1.0) };
+    let pt3 = |v: &[i64], s: f64| -> Point3 { pt3(v, s) + off };
     let defining: Vec<Point3>;
     let built = match kind {
         "3pt" => {
@@ -160,7 +164,7 @@ fn exec_plane(rec: &Value) -> Value {
     };
     let mut q = Q::new();
     let n = qv3(&mut q, &plane.normal.into_inner(), QB);
-    let d = q.q(plane.d / s, QB);
+    let d = q.q((plane.d - plane.normal.dot(&off)) / s, QB);
     let sdp: Vec<i64> = defining.iter().map(|p| q.q(plane.signed_distance_to_point(p) / s, QF)).collect();
     let prp: Vec<Vec<i64>> = defining.iter().map(|p| qv3(&mut q, &(plane.project_point(p) - p), QF / s)).collect();
     let qs: Vec<Point3> = gvvi(rec, "qs").iter().map(|v| pt3(v, s)).collect();
@@ -174,7 +178,7 @@ fn exec_plane(rec: &Value) -> Value {
         sd.push(q.q(plane.signed_distance_to_point(p) / s, QB));
         dist.push(q.q(plane.distance_to_point(p) / s, QB));
         let pr = plane.project_point(p);
-        proj.push(qv3(&mut q, &pr.coords, QC / s));
+        proj.push(qv3(&mut q, &(pr.coords - off), QC / s));
         sdproj.push(q.q(plane.signed_distance_to_point(&pr) / s, QF));
         pp.push(qv3(&mut q, &(plane.project_point(&pr) - pr), QF / s));
         isd.push(q.q(inv.signed_distance_to_point(p) / s, QB));
@@ -202,7 +206,7 @@ fn exec_plane(rec: &Value) -> Value {
         ixr.push(resid);
     }
     let inn = qv3(&mut q, &inv.normal.into_inner(), QB);
-    let id = q.q(inv.d / s, QB);
+    let id = q.q((inv.d - inv.normal.dot(&off)) / s, QB);
     json!({"cpanic": false, "finite": q.finite, "n": n, "d": d, "sdp": sdp, "prp": prp, "sd": sd, "dist": dist, "proj": proj,
            "sdproj": sdproj, "pp": pp, "isd": isd, "inn": inn, "id": id, "tsd": tsd, "ixs": ixs, "ixr": ixr})
 }
